@@ -188,12 +188,12 @@ theorem baseStab_ok (T : Tables) (cls : String) (rot : Bool) (typ : String) (loc
     (hl : lookupFull T.cfg cls "stabilizers" (pictureName rot) typ = some e)
     (he : entryOk T.colormap stabColorKeys e = true) :
     ∃ d, baseStab T cls rot typ loc = .ok d ∧ Good d ∧ getKey d "location" = some (locJV loc) ∧
-      getKey d "type" = some (.str typ) := by
+      getKey d "type" = some (.str typ) ∧ getKey d "params" = getKey e.body "params" := by
   obtain ⟨h1, h2, h3, cols, h4, h5⟩ := entryOk_unpack he
   have hc : getKey (setKey (setKey e.body "type" (.str typ)) "location" (locJV loc)) "color" = some (.obj cols) := by
     rw [getKey_setKey_ne _ _ _ _ (by decide), getKey_setKey_ne _ _ _ _ (by decide)]; exact h4
   obtain ⟨d, hd, hk, hg⟩ := resolveColors_ok T.colormap stabColorKeys _ cols (by decide) hc h5
-  refine ⟨d, ?_, ⟨?_, ?_⟩, ?_, ?_⟩
+  refine ⟨d, ?_, ⟨?_, ?_⟩, ?_, ?_, ?_⟩
   · unfold baseStab; simp only [hl]; exact hd
   · rw [descComplete_iff]
     refine ⟨hk _ (hasKey_setKey_of _ _ _ _ (hasKey_setKey_of _ _ _ _ h1)), hk _ (hasKey_of_getKey hc),
@@ -204,6 +204,7 @@ theorem baseStab_ok (T : Tables) (cls : String) (rot : Bool) (typ : String) (loc
     exact h3
   · rw [hg _ (by decide)]; exact getKey_setKey_self _ _ _
   · rw [hg _ (by decide), getKey_setKey_ne _ _ _ _ (by decide)]; exact getKey_setKey_self _ _ _
+  · rw [hg _ (by decide), getKey_setKey_ne _ _ _ _ (by decide), getKey_setKey_ne _ _ _ _ (by decide)]
 
 /-- the base `qubit_representation` on a servable entry, for a location that has an axis -/
 theorem baseQubit_ok (T : Tables) (cls : String) (rot : Bool) (axis : String) (loc : Coord) (e : REntry)
